@@ -1,6 +1,6 @@
 (** Commands.v — the command table of the model runner. Every command maps
     a [val] to a [val]; the OCaml driver only parses and prints. *)
-From JSL Require Import Base Instance Dstate Filters World Observers Session Feasible Derived QuerySpec.
+From JSL Require Import Base Instance Dstate Filters World Observers Session Feasible Derived QuerySpec FilterSpec.
 From JSL Require CmdC03 CmdC04 CmdC11 CmdC12 CmdC14 CmdC15 CmdC16 CmdC17 CmdC18 CmdC19 CmdC20.
 
 Definition cmd_feasible (v : val) : val :=
@@ -36,6 +36,19 @@ Definition cmd_forced (v : val) : val :=
   VL (map (fun c => VI (forced_start I (dec_sched (vnth c 0)) (asN (vnth c 1)) (asN (vnth c 2)) (asN (vnth c 3))))
           (asL (vnth v 1))).
 
+(** oracle: what a filter (or a composition) must return on list L in the
+    state recomputed from the rows. [I; [[rows; [f ...]; L] ...]] ->
+    [[spec result; sublistb result-vs-L] ...] *)
+Definition spec_filters (I : instance) (d : dstate) (fs : list fname) (L : list (nat * nat)) : list (nat * nat) :=
+  fold_left (fun acc f => spec_filter I d f acc) fs L.
+Definition cmd_spec_filters (v : val) : val :=
+  let I := dec_instance (vnth v 0) in
+  VL (map (fun c => let d := dstate_of I (dec_sched (vnth c 0)) in
+                    let L := asLof dec_key (vnth c 2) in
+                    let r := spec_filters I d (asLof dec_fname (vnth c 1)) L in
+                    VL [vlist enc_key r; vbool (sublistb r L)])
+          (asL (vnth v 1))).
+
 (** Commands < 100: the dispatcher world (this file). Commands [100*k + n]:
     property Ck's own table ([CmdCk.run_ck n]). *)
 Definition run_core (c : Z) (v : val) : val :=
@@ -46,6 +59,7 @@ Definition run_core (c : Z) (v : val) : val :=
   | 4 => cmd_spec_queries v
   | 5 => cmd_tracking v
   | 6 => cmd_forced v
+  | 7 => cmd_spec_filters v
   | _ => VL []
   end.
 
